@@ -1404,7 +1404,7 @@ def _einsum_single(lhs, rhs, operand):
         # scalar output - match numpy behaviour by not wrapping as array
         return new_data.sum()
 
-    return to_output_format(COO(new_coords, new_data, shape=new_shape, has_duplicates=True))
+    return to_output_format(COO(new_coords, new_data, shape=new_shape, has_duplicates=True, prune=True))
 
 
 def einsum(*operands, **kwargs):
